@@ -23,6 +23,56 @@ static void describe(sb_t *o)
 }
 
 static sb_t d_exp, d_got;
+static int has_high_byte(const unsigned char *p, size_t n)
+{
+	for (size_t i = 0; i < n; i++)
+		if (p[i] >= 0x80)
+			return 1;
+	return 0;
+}
+static int wellformed_utf8(const unsigned char *p, size_t n)
+{
+	for (size_t i = 0; i < n;)
+	{
+		unsigned c = p[i];
+		int k;
+		unsigned lo = 0x80, hi = 0xbf;
+		if (c < 0x80)
+		{
+			i++;
+			continue;
+		}
+		if (c >= 0xc2 && c <= 0xdf)
+			k = 1;
+		else if (c >= 0xe0 && c <= 0xef)
+		{
+			k = 2;
+			if (c == 0xe0)
+				lo = 0xa0;
+			if (c == 0xed)
+				hi = 0x9f;
+		}
+		else if (c >= 0xf0 && c <= 0xf4)
+		{
+			k = 3;
+			if (c == 0xf0)
+				lo = 0x90;
+			if (c == 0xf4)
+				hi = 0x8f;
+		}
+		else
+			return 0;
+		if (i + (size_t)k >= n)
+			return 0;
+		if (p[i + 1] < lo || p[i + 1] > hi)
+			return 0;
+		for (int j = 2; j <= k; j++)
+			if (p[i + (size_t)j] < 0x80 || p[i + (size_t)j] > 0xbf)
+				return 0;
+		i += (size_t)k + 1;
+	}
+	return 1;
+}
 
 static int one(int strict, int deliv)
 {
@@ -138,6 +188,33 @@ static int one(int strict, int deliv)
 				json_object_put(o1);
 			if (o2)
 				json_object_put(o2);
+		}
+		/* a third mode: with JSON_TOKENER_VALIDATE_UTF8 a text that is well-formed UTF-8 (RFC 3629:
+		 * no overlong forms, no surrogates, at most U+10FFFF) is accepted with the same value */
+		if (deliv == 0 && has_high_byte(T, TL) && wellformed_utf8(T, TL))
+		{
+			char *buf = mc_guard_buf(TL + 1);
+			memcpy(buf, T, TL);
+			buf[TL] = 0;
+			struct json_tokener *t2 = json_tokener_new();
+			json_tokener_set_flags(t2, JSON_TOKENER_VALIDATE_UTF8 | (strict ? JSON_TOKENER_STRICT : 0));
+			MC_COUNT("calls", 1);
+			errno = mc_errno_pre;
+			struct json_object *o3 = json_tokener_parse_ex(t2, buf, (int)TL + 1);
+			if (json_tokener_get_error(t2) != json_tokener_success)
+				mc_violation("valid-utf8-rejected-when-validating", "with JSON_TOKENER_VALIDATE_UTF8: %s at offset %zu", json_tokener_error_desc(json_tokener_get_error(t2)),
+				             json_tokener_get_parse_end(t2));
+			else
+			{
+				sb_t d3 = {0};
+				vf_dump(o3, &d3, 0);
+				if (strcmp(sb_str(&d3), sb_str(&d_got)))
+					mc_violation("value-mismatch", "with JSON_TOKENER_VALIDATE_UTF8 the value is %s, without it %s", sb_str(&d3), sb_str(&d_got));
+				sb_free(&d3);
+			}
+			if (o3)
+				json_object_put(o3);
+			json_tokener_free(t2);
 		}
 		/* the end position is C03's business (consistency across chunkings); here only that it is within the input */
 		if (end > TL + 1)
